@@ -5,6 +5,7 @@
 //! A scenario that fails on the current /repo tree is a concrete failing schedule for the obligation
 //! whose label family it is registered under (replay/driver.py).
 mod explore;
+mod conformance;
 #[cfg(feature = "deadlock-detection")]
 mod dd;
 use rsactor::{spawn, spawn_with_mailbox_capacity, Actor, ActorRef, ActorResult, ActorWeak, Message};
@@ -441,6 +442,10 @@ async fn metrics_counts() -> Out {
 
 fn main() {
     let which: Vec<String> = std::env::args().skip(1).collect();
+    if which.first().map(|s| s.as_str()) == Some("conformance") {
+        for a in conformance::run() { emit(Out { name: a.name, ok: a.ok, detail: a.detail, trace: vec![] }); }
+        return;
+    }
     if which.first().map(|s| s.as_str()) == Some("explore") {
         let seed: u64 = which.get(1).and_then(|x| x.parse().ok()).unwrap_or(1);
         let n: usize = which.get(2).and_then(|x| x.parse().ok()).unwrap_or(2000);
